@@ -42,4 +42,6 @@ extern struct op_entry ops_scale[];
 void scale_reset(void);
 extern struct op_entry ops_find[];
 void find_reset(void);
+extern struct op_entry ops_local[];
+void local_reset(void);
 #endif
